@@ -106,7 +106,7 @@ def _scaled(v, L):
     return r, bool(abs(s - r) < 1e-6 * max(1.0, abs(s)))
 
 
-def record_fit(params, X, Kmat=None, variant="compiled", queries=None, scale=1.0, model=None):
+def record_fit(params, X, Kmat=None, variant="compiled", queries=None, scale=1.0, model=None, offset=0):
     """Fit a real Kauri on integer data X (n x d) with integer kernel (linear if Kmat is None, else precomputed) and
     return (events, model).  params uses the constructor's names.
     scale != 1: the kernel handed to the estimator is the integer kernel times `scale` (always as a precomputed matrix), and
@@ -117,8 +117,11 @@ def record_fit(params, X, Kmat=None, variant="compiled", queries=None, scale=1.0
     X = np.asarray(X, dtype=np.float64)
     n, d = X.shape
     L = lcm_to(n)
-    if scale != 1.0 and Kmat is None:
+    if (scale != 1.0 or offset) and Kmat is None:
         Kmat = X @ X.T
+    # offset: the features are shifted far from the origin (values around 1e6 with unit gaps) while the kernel stays the one of
+    # the un-shifted data: comparisons with a threshold must be exact whatever the magnitude of the feature values
+    X = X + float(offset)
     Kint = (X @ X.T) if Kmat is None else np.asarray(Kmat, dtype=np.float64)
     assert np.all(Kint == np.round(Kint)) and np.all(X == np.round(X))
     raw = dict(kmax=params.get("max_clusters", 3), maxdepth=params.get("max_depth") or 0,
@@ -161,7 +164,7 @@ def record_fit(params, X, Kmat=None, variant="compiled", queries=None, scale=1.0
         for f_, th_ in zip(t.features, t.thresholds):
             if f_ is None:
                 continue
-            for eps_ in (np.nextafter(float(th_), np.inf) - float(th_), 1e-9 * max(1.0, abs(float(th_))), 1e-6 * max(1.0, abs(float(th_)))):
+            for eps_ in (np.nextafter(float(th_), np.inf) - float(th_), min(0.25, 1e-9 * max(1.0, abs(float(th_)))), min(0.5, 1e-6 * max(1.0, abs(float(th_))))):
                 base = [float(v) for v in X[0]]
                 for other in (X[0], X[-1]):
                     pt = [float(v) for v in other]
@@ -268,18 +271,19 @@ def run_traces(rep, pid, tier, rnd, budget):
                     for variant in ("compiled", "pyx"):
                         p = dict(params, random_state=rnd.randint(0, 3))
                         scale = rnd.choice([1.0, 1.0, 1e-20, 2.0 ** 40])
+                        offset = rnd.choice([0, 0, 0, 10 ** 6])
                         try:
                             # the same estimator object is re-parameterised and refitted all along (per execution variant)
-                            ev, model = record_fit(p, X, Kmat=Kmat, variant=variant, scale=scale, model=reuse.get(variant))
+                            ev, model = record_fit(p, X, Kmat=Kmat, variant=variant, scale=scale, model=reuse.get(variant), offset=offset)
                             reuse[variant] = model
                         except Exception as e:
-                            if pid == "C09":
+                            if pid in ("C08", "C09"):       # a fit that raises completes neither the search nor the tree
                                 rep.violation(f"Kauri(**{p}).fit raised {type(e).__name__}: {e} on X={X} kernel="
                                               f"{'linear' if Kmat is None else 'precomputed'} [{variant}]",
                                               {"X": X, "params": p, "variant": variant}, tags=("raises", variant))
                             continue
                         groups[(n, d)].append(ev)
-                        meta[(n, d)].append(dict(X=X, params=p, kernel=("linear" if Kmat is None else "precomputed-indefinite") + f" x{scale:g}",
+                        meta[(n, d)].append(dict(X=X, params=p, kernel=("linear" if Kmat is None else "precomputed-indefinite") + f" x{scale:g}" + (f" data+{offset}" if offset else ""),
                                                  variant=variant, splits=len(ev[-1]["tree"]["left"]) // 2))
     devs = 0
     for (n, d), traces in groups.items():
